@@ -20,7 +20,7 @@ CASE_TIMEOUT = 60
 SEARCH_CAP = 150
 RULE = ('one case = a kapture dataset built with the real kapture classes (1-6 images in 10 directory layouts, 1-3 cameras of every '
         'kapture model, poses from 9 quaternion families incl. exact and near 180 degree turns, non-unit and integer quaternions, '
-        '0-13 points, observations, matches in both orientations, keypoints/descriptors files) + a configuration (flatten, '
+        '0-13 points, observations (a third of the tracks see a point 2-3 times in one image), matches in both orientations, keypoints/descriptors files) + a configuration (flatten, '
         'intrinsics layout v1/v2, image transfer actions); the real export_openmvg then import_openmvg run in scratch '
         'directories; the exported sfm_data / regions / matches file AND the re-imported dataset (as loaded by kapture_from_dir) '
         'are compared with the Coq model. Non-trivial = at least 2 images and (points or matches); distinct = distinct case JSON.')
@@ -234,7 +234,11 @@ def _gen_case(rng, stream):
         for p in range(len(points)):
             if rng.random() < 0.75:
                 for i in rng.sample(range(n), rng.randint(1, n)):
-                    obs.append([p, i, rng.randrange(nkp[i])])
+                    # a point may be observed several times in ONE image (a kapture observation list is a
+                    # multiset of (image, feature)): 2-3 distinct features of the same image for ~1/3 of the tracks
+                    k = rng.choice([1, 1, 2, 3])
+                    for f in rng.sample(range(nkp[i]), k):
+                        obs.append([p, i, f])
     matches = []
     if n >= 2:
         pairs = [(a, b) for a in range(n) for b in range(a + 1, n)]
